@@ -210,9 +210,24 @@ impl Suite for Values {
                     let n = match rng.below(5) { 0 => 0, 1 => 32, _ => rng.range(1, 8) };
                     let dup = rng.chance(1, 2);
                     let mut s = format!("cap {n}");
-                    for i in 0..n {
+                    let mut i = 0;
+                    while i < n {
                         let name = if dup { gen::name(rng, true) } else { format!("f{i}") };
+                        if dup && i + 1 < n && rng.chance(1, 3) {
+                            // the same name twice in a row with values that compare equal but are
+                            // not the same value (signed zeros), or with the very same value
+                            let (a, b) = match rng.below(4) {
+                                0 => ("f64:0000000000000000", "f64:8000000000000000"),
+                                1 => ("f64:8000000000000000", "f64:0000000000000000"),
+                                2 => ("f32:00000000", "f32:80000000"),
+                                _ => ("i64:7", "i64:7"),
+                            };
+                            s.push_str(&format!(" {} {a} {} {b}", xs(&name), xs(&name)));
+                            i += 2;
+                            continue;
+                        }
                         s.push_str(&format!(" {} {}", xs(&name), gen_prim_tok(rng)));
+                        i += 1;
                     }
                     lines.push(s);
                 }
@@ -228,7 +243,12 @@ impl Suite for Values {
                         2 => ("i64", match &v { Val::Int(i) if rng.chance(1, 2) && i64::try_from(*i).is_ok() => i.to_string(), _ => (*rng.pick(&[i64::MIN, -1, 0, 1, 42, i64::MAX])).to_string() }),
                         3 => ("u128", match &v { Val::UInt(i) if rng.chance(1, 2) => i.to_string(), _ => gen::uint128(rng).to_string() }),
                         4 => ("u64", match &v { Val::UInt(i) if rng.chance(1, 2) && u64::try_from(*i).is_ok() => i.to_string(), _ => (*rng.pick(&[0, 1, 42, u64::MAX])).to_string() }),
-                        5 => ("f64", match &v { Val::Float(b) if rng.chance(1, 2) => format!("{b:016x}"), _ => format!("{:016x}", gen::any_f64_bits(rng)) }),
+                        5 => ("f64", match &v {
+                            Val::Float(b) if rng.chance(1, 3) => format!("{b:016x}"),
+                            // neighbours: one unit in the last place away, the other zero
+                            Val::Float(b) if rng.chance(1, 2) => format!("{:016x}", match rng.below(3) { 0 => b ^ 1, 1 => b.wrapping_add(1), _ => b ^ 0x8000_0000_0000_0000 }),
+                            _ => format!("{:016x}", gen::any_f64_bits(rng)),
+                        }),
                         _ => ("str", match &v { Val::Str(s) if rng.chance(1, 2) => xs(s), _ => xs(&gen::string(rng)) }),
                     };
                     lines.push(format!("cmp {} {ty} {c}", v.tok()));
